@@ -244,12 +244,32 @@ func RunLRUDrive(seed uint64, thorough bool, env *Env) *RunResult {
 			capacity = r.Range(6, 40)
 			nkeys = capacity + r.Range(1, 12)
 		}
+		big := r.Chance(0.006)
+		if big {
+			// capacities the engine-driven runs never fill: around the powers of
+			// two up to the default of 10000
+			capacity = []int{255, 256, 257, 1023, 1024, 1025, 2047, 2048, 2049, 4096, 10000}[r.Intn(11)]
+			nkeys = capacity + r.Range(1, 40)
+		}
 		l := storage.NewLRU(capacity)
 		w.AttachLRUModel(l)
 		m := w.lruShadow[l]
 		nodes := map[uint64]*storage.VerifNode{} // every node ever created, by key (latest)
 		steps := r.Range(20, 400)
 		shape := uint64(capacity)
+		if big {
+			// fill the cache first (mostly clean pages), then work on it
+			for i := 0; i < capacity && w.Viol == nil; i++ {
+				k := uint64(i) * 4096
+				n := storage.VerifNewNode(k, r.Chance(0.1))
+				if !l.VerifSet(k, n) {
+					w.lruFail(fmt.Sprintf("set(%d) refused while the cache holds %d of %d entries", k, i, capacity), "set-return")
+				}
+				nodes[k] = n
+			}
+			steps = r.Range(200, 1500)
+			res.Stats["lrudrive_big_capacity_seqs"]++
+		}
 		for i := 0; i < steps && w.Viol == nil; i++ {
 			k := uint64(r.Intn(nkeys)) * 4096
 			switch r.Intn(10) {
